@@ -19,9 +19,9 @@ import (
 )
 
 // ------------------------------------------------------------------ C15, Layer 2: the chain side of the bus.
-// events.publishEvents (one Tendermint subscription -> bus) runs as a simulated task on a channel the
-// harness has filled with transaction / block results, as the node's bounded subscription queue would
-// be; subscribers read concurrently.  Publication order is the order of the results on the subscription
+// events.Publish runs as a simulated task against a stand-in node client whose two subscription channels
+// the harness has filled with transaction / block results, as the node's bounded subscription queues
+// would be; subscribers read concurrently.  Publication order is the order of the results on the subscription
 // and of the events inside a result: every subscriber must see each stream's events exactly once and
 // in that order (failed transactions publish nothing).
 
@@ -92,8 +92,7 @@ func runC15Feed(r *core.Run) (*core.Violation, func() *core.Violation) {
 			desc += fmt.Sprintf(" tx@%d[%d]", height, n)
 		}
 	}
-	viaPublish := r.Bool(40, "knob.via-publish")
-	r.Logf("L2 chain feed: readers=%d via-Publish=%v results:%s", nReaders, viaPublish, desc)
+	r.Logf("L2 chain feed: readers=%d results:%s", nReaders, desc)
 	r.Count("probe:l2-chain-feed-runs")
 	bus = pubsub.NewBus()
 	subscribed := 0
@@ -135,28 +134,12 @@ func runC15Feed(r *core.Run) (*core.Violation, func() *core.Violation) {
 		}
 		return true
 	}
-	if viaPublish {
-		// the whole feed: events.Publish subscribes to both streams of a (stand-in) node and runs its
-		// publishers itself
-		r.Count("probe:l2-chain-feed-via-publish")
-		simrt.Go("publish", func() {
-			if waitSubs() {
-				_ = events.Publish(ctx, &fakeEventsClient{tx: txch, blk: blkch}, "feed", bus)
-			}
-		})
-	} else {
-		for _, st := range []struct {
-			name string
-			ch   chan ctypes.ResultEvent
-		}{{"tx-stream", txch}, {"blk-stream", blkch}} {
-			st := st
-			simrt.Go(st.name, func() {
-				if waitSubs() {
-					_ = events.VerifPublishEvents(ctx, st.ch, bus)
-				}
-			})
+	// events.Publish subscribes to both streams of a (stand-in) node and runs its publishers itself
+	simrt.Go("publish", func() {
+		if waitSubs() {
+			_ = events.Publish(ctx, &fakeEventsClient{tx: txch, blk: blkch}, "feed", bus)
 		}
-	}
+	})
 	loop := &l2Loop{r: r, s: s}
 	done := func() bool {
 		if subscribed < nReaders {
